@@ -282,6 +282,28 @@ def chart_case_from_map(r, cid, res, tempo, pts, dense=False):
         if r.random() < 0.25:
             # a flag line with a length of its own (meaningless: "flag lines never contribute a length"); never forced on the first note
             body.append(("N", t, 6 if (i == 0 or r.random() < 0.5) else 5, r.choice([0, 1, ln + 1, ln + 500, 10**5])))
+    # round 10: (a) a lane line written TWICE with different lengths, the longer first or second (whichever length counts, the
+    # event's end time is the time of ITS OWN end tick - seeded/C11j); (b) two neighbouring notes under one tempo written in
+    # the wrong order (the library accepts that and every time still is the tempo-map time of its tick - seeded/C12j)
+    if body and r.random() < 0.3:
+        k = r.randrange(len(body))
+        if body[k][2] <= 4 or body[k][2] == 7:
+            _, t0, lane0, len0 = body[k]
+            other = r.choice([0, len0 + 1, len0 + 97, max(0, len0 - 1), 10 * len0 + 3])
+            if other != len0:
+                body.insert(k + 1 if r.random() < 0.5 else k, ("N", t0, lane0, other))
+    if len(note_ticks) >= 2 and r.random() < 0.2:
+        def _gov(t):
+            return max(i for i, (tk, _) in enumerate(tempo) if tk <= t)
+        cand = [i for i in range(len(note_ticks) - 1) if _gov(note_ticks[i]) == _gov(note_ticks[i + 1])]
+        if cand:
+            i = r.choice(cand)
+            ga = [ln for ln in body if ln[1] == note_ticks[i]]
+            gb = [ln for ln in body if ln[1] == note_ticks[i + 1]]
+            if not any(ln[2] == 5 for ln in ga + gb):
+                rest_before = [ln for ln in body if ln[1] < note_ticks[i]]
+                rest_after = [ln for ln in body if ln[1] > note_ticks[i + 1]]
+                body = rest_before + gb + ga + rest_after
     sp = [("S", t, r.choice([0, 1, 50])) for t in sorted(r.sample(pts, min(len(pts), 2)))]
     te = [("E", t, r.choice(["solo", "solo", "soloend", "{}", "{0}", "{x}", "%s", "so{}lo", "{!r}", "%(a)s"])) for t in sorted(r.sample(pts, min(len(pts), 2)))]
     body = nt.interleave(r, body, sp)
